@@ -64,6 +64,7 @@ def sub_scalar(cls: str):
         c.ensures("registry", lambda r, post: S.registry_is(ct, cls, r, Sx, upd), ("C04", "C05", "C12"))
         c.ensures("unfold", lambda r, post: S.unfold_defs(ct, cls, r), ("C04",))
         c.ensures("path-frame", lambda r, post: V.path_frame(post), ("C07",))
+        c.ensures("same-class", lambda r, post: z3.And(S.is_schema(ct, r), M.rcls(r) == M.rcls(Sx)), ("C12", "C07"))
         c.meta = {"cls": cls}
     return body
 
@@ -247,3 +248,211 @@ def _c14(lc):
         hyp.append(z3.Not(M.is_FNanV(x)))
     lc.oblige("reflexive", hyp, denotes(x, x), {"value": x}, {},
               text="from_native(x) accepts x (given it accepts the members of x)")
+
+
+# ----------------------------------------------------------------------------- container substitution: exact functional contracts
+# The member substitutions are the uninterpreted functions of Accept[Substitutor] (custom.subres / subraises): a
+# container visit is specified by *which* member results it assembles, in which order and when it raises.  The
+# semantic statements (C04 pins, C05 narrows, C12) are lemmas over these contracts with the members' statements as
+# induction hypothesis.
+from .custom import subraises, subres  # noqa: E402
+
+
+@contract(SUB, "Substitutor.visit_type_alias", props=("C04", "C05", "C12", "C07"), group="substitutor")
+def _sub_alias(c):
+    ct = c.ct
+    c.built_self("Substitutor")
+    Sx = c.sym("schema", "TypeAliasSchema")
+    v = c.sym("value")
+    kw = c.kwargs()
+    for f in S.reach_def(ct, "TypeAliasSchema", Sx):
+        c.requires(f)
+    t = S.prop(Sx, "type")
+    c.requires(M.has(S.reg_of(Sx), S.S_("type")), "alias-has-a-type")      # SchemaFacade.alias always sets it
+    c.paths()
+    c.raises("SubstitutionError", props=("C12",))
+    c.raises_when("SubstitutionError", subraises(t, v, kw))
+    c.returns("TypeAliasSchema")
+    c.ensures("registry", lambda r, post: S.registry_is(ct, "TypeAliasSchema", r, Sx, {"type": subres(t, v, kw)}),
+              ("C04", "C05", "C12"))
+    c.ensures("same-class", lambda r, post: z3.And(S.is_schema(ct, r), M.rcls(r) == M.rcls(Sx)), ("C12", "C07"))
+    c.meta = {"cls": "TypeAliasSchema"}
+
+
+@contract(SUB, "Substitutor._from_native", props=("C12", "C04", "C07"), group="substitutor")
+def _sub_from_native(c):
+    """the wrapper turns every refusal of from_native into SubstitutionError; otherwise from_native's result"""
+    ct = c.ct
+    c.built_self("Substitutor")
+    x = c.sym("value")
+    c.requires(S.deep_range(x), "float-repr")
+    c.raises("SubstitutionError", props=("C12",))
+    c.returns(None)
+    w = z3.Const("sfw", Obj)
+    c.ensures("is-schema", lambda r, post: z3.And(S.is_schema(ct, r), S.wf(r), S.reach(r)), ("C12", "C04"))
+    c.ensures("denotes", lambda r, post: z3.Implies(plain_keys(x), z3.ForAll(
+        [w], S.conforms(r, w) == denotes(x, w), patterns=[S.conforms(r, w)])), ("C04",))
+    c.ensures("native-of", lambda r, post: native_of(x, r), ("C04", "C12"))
+
+
+fn_raises = z3.Function("fn_raises", Obj, M.B)      # Substitutor._from_native(x) raises (x cannot be converted)
+fn_res = z3.Function("fn_res", Obj, Obj)            # ... otherwise its result
+
+
+@contract(SUB, "Substitutor.visit_any", props=("C04", "C05", "C12", "C07"), group="substitutor")
+def _sub_any(c):
+    """raises iff the relaxed validation fails, or types are declared and every alternative refuses; the result's
+    `types` are, in order, the substitutions of the alternatives that do not refuse (from_native(v) when undeclared)"""
+    ct = c.ct
+    c.built_self("Substitutor")
+    Sx = c.sym("schema", "AnySchema")
+    v = c.sym("value")
+    kw = c.kwargs()
+    for f in S.reach_def(ct, "AnySchema", Sx):
+        c.requires(f)
+    c.requires(S.deep_range(v), "float-repr")
+    T_ = S.prop(Sx, "types")
+    n = M.llen(T_)
+    j, k = z3.Ints("saj sak")
+    all_refuse = z3.ForAll([j], z3.Implies(z3.And(0 <= j, j < n), subraises(M.lat(T_, j), v, kw)), patterns=[M.lat(T_, j)])
+    c.paths()
+    c.raises("SubstitutionError", props=("C12",))
+    c.ensures_exc("SubstitutionError", "only-when-invalid-or-nothing-fits",
+                  lambda e, post: z3.Or(z3.Not(V.rvalid(Sx, v)), z3.And(T_ != M.NilV, all_refuse), T_ == M.NilV), ("C12",))
+    c.returns("AnySchema")
+    c.ensures("same-class", lambda r, post: z3.And(S.is_schema(ct, r), M.rcls(r) == M.rcls(Sx)), ("C12", "C07"))
+
+    def types_post(r, post):
+        R = S.prop(r, "types")
+        m = M.llen(R)
+        return z3.And(
+            V.rvalid(Sx, v), M.isinstance_f(ct, R, "tuple"), m >= 1,
+            z3.Implies(T_ != M.NilV, z3.And(
+                # every member is the substitution of an alternative that does not refuse ...
+                z3.ForAll([k], z3.Implies(z3.And(0 <= k, k < m), z3.Exists([j], z3.And(
+                    0 <= j, j < n, z3.Not(subraises(M.lat(T_, j), v, kw)), M.lat(R, k) == subres(M.lat(T_, j), v, kw)),
+                    patterns=[M.lat(T_, j)])), patterns=[M.lat(R, k)]),
+                # ... and none of those is left out   (the order is not specified here)
+                z3.ForAll([j], z3.Implies(z3.And(0 <= j, j < n, z3.Not(subraises(M.lat(T_, j), v, kw))),
+                                          z3.Exists([k], z3.And(0 <= k, k < m, M.lat(R, k) == subres(M.lat(T_, j), v, kw)),
+                                                    patterns=[M.lat(R, k)])), patterns=[M.lat(T_, j)]))))
+    c.ensures("types", types_post, ("C04", "C05", "C12"))
+    c.meta = {"cls": "AnySchema"}
+
+
+@invariant(SUB, "Substitutor.visit_any", loop=0)
+def _inv_sub_any(L):
+    """L20: `types` holds exactly the substitutions of the alternatives seen so far that do not refuse"""
+    ct = L.ct
+    ty, Sx, v = L.v("types"), L.v("schema"), L.v("value")
+    kw = L.v("kwargs")
+    T_ = S.prop(Sx, "types")
+    j, k = z3.Ints("lj lk")
+    m = M.llen(ty)
+    return z3.And(
+        M.is_Ref(ty), M.rcls(ty) == ct.id("list"), m <= L.i,
+        z3.ForAll([k], z3.Implies(z3.And(0 <= k, k < m), z3.Exists([j], z3.And(
+            0 <= j, j < L.i, z3.Not(subraises(M.lat(T_, j), v, kw)), M.lat(ty, k) == subres(M.lat(T_, j), v, kw)),
+            patterns=[M.lat(T_, j)])), patterns=[M.lat(ty, k)]),
+        z3.ForAll([j], z3.Implies(z3.And(0 <= j, j < L.i, z3.Not(subraises(M.lat(T_, j), v, kw))),
+                                  z3.Exists([k], z3.And(0 <= k, k < m, M.lat(ty, k) == subres(M.lat(T_, j), v, kw)),
+                                            patterns=[M.lat(ty, k)])), patterns=[M.lat(T_, j)]))
+
+
+native_of = z3.Function("native_of", Obj, Obj, M.B)
+"""native_of(x, r): r is what Substitutor._from_native(x) returns: a usable schema that (for a plain value x) accepts
+exactly the values denoting x"""
+
+
+def _native_axioms(ct) -> List[Any]:
+    x, r, w = z3.Consts("nox nor now", Obj)
+    return [z3.ForAll([x, r], native_of(x, r) == z3.And(
+        S.is_schema(ct, r), S.wf(r), S.reach(r),
+        z3.Implies(plain_keys(x), z3.ForAll([w], S.conforms(r, w) == denotes(x, w), patterns=[S.conforms(r, w)]))),
+        patterns=[native_of(x, r)])]
+
+
+_REG.axiom_fns.append(_native_axioms)
+
+
+@contract(SUB, "Substitutor._substitute_elements", props=("C04", "C05", "C12", "C07"), group="substitutor")
+def _sub_elements(c):
+    """positional contract: the result has one schema per element of `value`; inside the window
+    [start, start + len(elements)) it is the member substitution elements[q] % value[start + q], outside it is
+    from_native(value[i]).  Raises SubstitutionError only."""
+    ct = c.ct
+    c.built_self("Substitutor")
+    v = c.sym("value", "list")
+    E = c.sym("elements", "list")
+    st0 = c.sym("start", "int") if c.has_arg("start") or c.mode == "verify" else M.mk_int(0)
+    kw = c.kwargs()
+    j = z3.Int("sej")
+    c.requires(z3.And(M.isinstance_f(ct, v, "list"), M.is_Ref(E), M.rcls(E) == ct.id("list")), "lists")
+    c.requires(z3.And(M.is_IntV(st0), M.ival(st0) >= 0, M.ival(st0) <= M.llen(v)), "start-within-value")
+    c.requires(z3.ForAll([j], z3.Implies(z3.And(0 <= j, j < M.llen(E)), z3.And(
+        S.is_schema(ct, M.lat(E, j)), S.wf(M.lat(E, j)), S.reach(M.lat(E, j)))), patterns=[M.lat(E, j)]), "element-schemas")
+    c.requires(S.deep_range(v), "float-repr")
+    s0, ne, n = M.ival(st0), M.llen(E), M.llen(v)
+    c.paths()
+    c.raises("SubstitutionError", props=("C12",))
+    c.returns("list")
+
+    def post(r, post_):
+        return z3.And(
+            M.is_Ref(r), M.rcls(r) == ct.id("list"), M.llen(r) == n, s0 + ne <= n,
+            z3.ForAll([j], z3.Implies(z3.And(0 <= j, j < n), z3.If(
+                z3.And(s0 <= j, j < s0 + ne),
+                z3.And(z3.Not(subraises(M.lat(E, j - s0), M.lat(v, j), kw)),
+                       M.lat(r, j) == subres(M.lat(E, j - s0), M.lat(v, j), kw)),
+                native_of(M.lat(v, j), M.lat(r, j)))), patterns=[M.lat(r, j)]))
+    c.ensures("positions", post, ("C04", "C05", "C12"))
+    c.fresh_result = True
+
+
+@invariant(SUB, "Substitutor._substitute_elements", loop=0)
+def _inv_se0(L):
+    """L21: one member substitution per element schema seen so far, at the window position"""
+    ct = L.ct
+    R, v, E = L.v("substituted"), L.v("value"), L.v("elements")
+    s0 = M.int_of(L.v("start"))
+    kw = L.v("kwargs")
+    j = z3.Int("l1j")
+    return z3.And(M.is_Ref(R), M.rcls(R) == ct.id("list"), M.llen(R) == L.i, s0 + L.i <= M.llen(v),
+                  z3.ForAll([j], z3.Implies(z3.And(0 <= j, j < L.i), z3.And(
+                      z3.Not(subraises(M.lat(E, j), M.lat(v, s0 + j), kw)),
+                      M.lat(R, j) == subres(M.lat(E, j), M.lat(v, s0 + j), kw))), patterns=[M.lat(R, j), M.lat(E, j)]))
+
+
+@invariant(SUB, "Substitutor._substitute_elements", loop=1)
+def _inv_se1(L):
+    """L22: after the window come the from_native schemas of the values behind it"""
+    ct = L.ct
+    R, v, E = L.v("substituted"), L.v("value"), L.v("elements")
+    s0 = M.int_of(L.v("start"))
+    kw = L.v("kwargs")
+    ne = M.llen(E)
+    j = z3.Int("l2j")
+    return z3.And(M.is_Ref(R), M.rcls(R) == ct.id("list"), M.llen(R) == ne + L.i, s0 + ne + L.i <= M.llen(v),
+                  z3.ForAll([j], z3.Implies(z3.And(0 <= j, j < ne + L.i), z3.If(
+                      j < ne,
+                      z3.And(z3.Not(subraises(M.lat(E, j), M.lat(v, s0 + j), kw)),
+                             M.lat(R, j) == subres(M.lat(E, j), M.lat(v, s0 + j), kw)),
+                      native_of(M.lat(v, s0 + j), M.lat(R, j)))), patterns=[M.lat(R, j)]))
+
+
+@invariant(SUB, "Substitutor._substitute_elements", loop=2)
+def _inv_se2(L):
+    """L23: the from_native schemas of the values before the window are inserted in front, in order"""
+    ct = L.ct
+    R, v, E = L.v("substituted"), L.v("value"), L.v("elements")
+    s0 = M.int_of(L.v("start"))
+    kw = L.v("kwargs")
+    ne, n = M.llen(E), M.llen(v)
+    j = z3.Int("l3j")
+    return z3.And(M.is_Ref(R), M.rcls(R) == ct.id("list"), M.llen(R) == n - s0 + L.i, s0 + ne <= n, L.i <= s0,
+                  z3.ForAll([j], z3.Implies(z3.And(0 <= j, j < n - s0 + L.i), z3.If(
+                      j < L.i, native_of(M.lat(v, j), M.lat(R, j)),
+                      z3.If(j < L.i + ne,
+                            z3.And(z3.Not(subraises(M.lat(E, j - L.i), M.lat(v, s0 + j - L.i), kw)),
+                                   M.lat(R, j) == subres(M.lat(E, j - L.i), M.lat(v, s0 + j - L.i), kw)),
+                            native_of(M.lat(v, s0 + j - L.i), M.lat(R, j))))), patterns=[M.lat(R, j)]))
